@@ -297,7 +297,8 @@ class TimeBase(np.ndarray):
             return memo[id_b][-1]
 
         b = b if a.scale == b.scale else getattr(b, a.scale)
-        b_formatted = np.asarray(b) if a.fmt == b.fmt else getattr(b, a.fmt)
+        # Multi-column formats are read with one row per field, the values have one row per epoch
+        b_formatted = np.asarray(b) if a.fmt == b.fmt else np.asarray(getattr(b, a.fmt)).T
         val = np.insert(np.asarray(a), pos, b_formatted, axis=0)
         jd1 = np.insert(a.jd1, pos, b.jd1)
         jd2 = np.insert(a.jd2, pos, b.jd2)
